@@ -137,6 +137,7 @@ type Exec struct {
 	recording bool
 	accesses  []accessRec
 	allocK, allocC int64
+	fillLong  bool // Fill gave the focused string field the long form (pattern bit 2)
 	allocOn   bool
 	allocLen  int64
 	pool      map[string][]Value
